@@ -7,7 +7,8 @@ from .sorts import *      # noqa
 from . import types as Ty
 from . import front
 from .front import Unsupported
-from .state import (SV, State, const_sv, truthy, shape, field_type, KIND, CLS, cls_in, val_of, GHOSTS)
+from .state import (SV, State, const_sv, truthy, shape, field_type, KIND, CLS, cls_in, val_of, GHOSTS, merge_states,
+                    only_fresh_stores)
 from .execcore import Outcome, Obligation, SeqHolder
 from .execcall import Exec
 from . import spec as SP
@@ -164,7 +165,8 @@ class Engine(object):
         ex.old_state = st.copy()
         res.pre = list(st.pc)
         outs = ex.exec_block(fi.node.body, st)
-        short = c.qual.split(':')[1]
+        outs = self.merge_exits(outs)
+        short = c.qual.split(':', 1)[1]
         modname = fi.modname
         for o in outs:
             if o.kind == 'normal':
@@ -206,6 +208,48 @@ class Engine(object):
         for o in res.obligations:
             o.name = '%s/%s' % (short, o.name)
             o.function = fi.qual
+
+    def merge_exits(self, outs):
+        """exits through the same site are merged (symbolic exception class), like states at a join"""
+        from .execcore import Exc
+        groups, order = {}, []
+        for o in outs:
+            key = (o.kind, o.site) if o.kind in ('raise', 'return') else (o.kind, id(o))
+            if key not in groups:
+                groups[key] = []
+                order.append(key)
+            groups[key].append(o)
+        res = []
+
+        def strip(st):
+            # locals and static notes are irrelevant once the function has been left
+            c = st.copy()
+            c.env = {}
+            c.notes = {k: v for k, v in c.notes.items() if k in ('calls', 'fresh')}
+            return c
+        for key in order:
+            grp = groups[key]
+            if len(grp) == 1 or key[0] not in ('raise', 'return'):
+                res.extend(grp)
+                continue
+            if key[0] == 'return':
+                merged = merge_states([(strip(o.st), o.val) for o in grp])
+                if len(merged) == 1:
+                    res.append(Outcome('return', merged[0][0], merged[0][1], site=key[1]))
+                else:
+                    res.extend(grp)
+                continue
+            items = []
+            for o in grp:
+                items.append((strip(o.st), SV(VInt(o.exc.cid_term()), Ty.INT)))
+            merged = merge_states(items)
+            if len(merged) == 1:
+                mst, cidv = merged[0]
+                res.append(Outcome('raise', mst, exc=Exc('builtins:BaseException', None, cid=vi(cidv.term), exact=False),
+                                   site=key[1]))
+            else:
+                res.extend(grp)
+        return res
 
     def raise_obligations(self, ex, c, o, modname, site):
         exc = o.exc
@@ -264,16 +308,18 @@ class Engine(object):
             base = old.heap.get(f)
             if base is None:
                 base = z3.Const('H0_' + f, FieldArr)
-            if arr.eq(base):
+            if arr.eq(base) or only_fresh_stores(arr, base, st.notes.get('fresh', frozenset())):
                 continue
             excl = [a != x for x in allowed_obj.get(f, [])]
             g = z3.ForAll([a], Implies(And(0 <= a, a < old.nxt, *excl), arr[a] == base[a]))
             ex.oblige(st, g, 'frame[%s]@%s' % (f, site), 'frame')
-        if not lists_any and not st.L.eq(old.L):
+        fresh_ids = st.notes.get('fresh', frozenset())
+        if not lists_any and not st.L.eq(old.L) and not only_fresh_stores(st.L, old.L, fresh_ids):
             excl = [a != x for x in list_objs]
             g = z3.ForAll([a], Implies(And(0 <= a, a < old.nxt, *excl), st.L[a] == old.L[a]))
             ex.oblige(st, g, 'frame[lists]@%s' % site, 'frame')
-        if not dicts_any and not (st.DK.eq(old.DK) and st.DV.eq(old.DV)):
+        if not dicts_any and not (st.DK.eq(old.DK) and st.DV.eq(old.DV)) and not (
+                only_fresh_stores(st.DK, old.DK, fresh_ids) and only_fresh_stores(st.DV, old.DV, fresh_ids)):
             excl = [a != x for x in dict_objs]
             g = z3.ForAll([a], Implies(And(0 <= a, a < old.nxt, *excl),
                                        And(st.DK[a] == old.DK[a], st.DV[a] == old.DV[a])))
